@@ -36,11 +36,13 @@ type Stats struct {
 	Complete    bool // the bound was explored completely (no cap hit)
 	Findings    []Finding
 	DistinctOut map[string]bool
+	// DistinctTraces: different event orders actually executed (a guard against vacuous exploration)
+	DistinctTraces map[string]bool
 }
 
 // Explore runs all schedules of the scenario up to the preemption bound (iteratively 0..bound).
 func Explore(sc Scenario, bound, maxSchedules int, heartbeat func()) *Stats {
-	st := &Stats{Bound: bound, Complete: true, DistinctOut: map[string]bool{}}
+	st := &Stats{Bound: bound, Complete: true, DistinctOut: map[string]bool{}, DistinctTraces: map[string]bool{}}
 	seenKeys := map[string]bool{}
 	add := func(f Finding) {
 		if !seenKeys[f.Key] {
@@ -64,6 +66,7 @@ func Explore(sc Scenario, bound, maxSchedules int, heartbeat func()) *Stats {
 				heartbeat()
 			}
 		}
+		st.DistinctTraces[strings.Join(x.Trace, ";")] = true
 		choices := make([]int, len(x.Points))
 		for i, p := range x.Points {
 			choices[i] = p.Chosen
